@@ -284,6 +284,10 @@ def cmdline_handler(argv):
                     runhy.run_path(str(filename), run_name="__main__")
                 return 0
             except FileNotFoundError as e:
+                if e.filename != str(filename):
+                    # The script was found; the program itself failed
+                    # to open some other file.
+                    raise
                 print(
                     "hy: Can't open file '{}': [Errno {}] {}".format(
                         e.filename, e.errno, e.strerror
